@@ -32,6 +32,7 @@ def _py():
 def _env(seed):
     e = dict(os.environ)
     e['PYTHONHASHSEED'] = str(seed)
+    e['KV_SESSION_VARIANT'] = str(seed % 2)      # sessions also differ in what they did before (see bounded/keydigest.py)
     e['PYTHONDONTWRITEBYTECODE'] = '1'
     pp = [VERIF]
     if os.environ.get('KLEPTO_REPO'):
